@@ -495,9 +495,19 @@ def _matmul(draw, og):
     form = draw(st.sampled_from(["mm", "mm", "vm", "mv", "vv", "smm", "msm", "ssm"]))
     sa, sb = {"mm": ((n, k), (k, m)), "vm": ((k,), (k, m)), "mv": ((n, k), (k,)), "vv": ((k,), (k,)),
               "smm": ((2, n, k), (k, m)), "msm": ((n, k), (2, k, m)), "ssm": ((2, n, k), (2, k, m))}[form]
+    kw = {}
+    if form == "mm" and draw(st.integers(0, 4)) == 0:
+        # the generalised-ufunc keyword: which axes of the operands and of the result hold the matrices
+        how = draw(st.sampled_from(["a", "b", "out"]))
+        if how == "a":
+            sa, kw["axes"] = (k, n), [{"$tuple": [1, 0]}, {"$tuple": [0, 1]}, {"$tuple": [0, 1]}]
+        elif how == "b":
+            sb, kw["axes"] = (m, k), [{"$tuple": [0, 1]}, {"$tuple": [-1, -2]}, {"$tuple": [0, 1]}]
+        else:
+            kw["axes"] = [{"$tuple": [0, 1]}, {"$tuple": [0, 1]}, {"$tuple": [1, 0]}]
     a = og.array(draw, shape=sa)
     b = og.related(draw, a, sb)
-    return {"args": [P(a), P(b)], "kw": {}}
+    return {"args": [P(a), P(b)], "kw": kw}
 
 
 @recipe("det", "linalg", np_name=None, cost=4)
